@@ -82,7 +82,7 @@ structure DCore (s : State) : Prop where
   m1 : s.manualLive = true → s.value = s.lastManual
   aw : ∀ a ∈ s.aws, AwOK s.loading a
   /-- a clean source memo caches the current source values -/
-  s1 : s.viaMemo = true → s.smDirty = false → s.smVal = s.src
+  s1 : s.viaMemo = true → s.smDirty = false → s.smVal = s.src ∧ s.smRc = s.rc
   /-- no lost wake-up: a dirty source memo means the derived's channel flag is set -/
   s2 : s.smDirty = true → s.chan = true
 
@@ -241,7 +241,7 @@ theorem notifySubs_effect {s : State}
 
 theorem notifySubs_dcore {s : State} (r1 : s.dstate ≠ .notifying) (r2 : s.dstate = .dirty → s.chan = true)
     (hv : s.value ≠ none) (m1 : s.manualLive = true → s.value = s.lastManual)
-    (aw : ∀ a ∈ s.aws, AwOK s.loading a) (s1 : s.viaMemo = true → s.smDirty = false → s.smVal = s.src)
+    (aw : ∀ a ∈ s.aws, AwOK s.loading a) (s1 : s.viaMemo = true → s.smDirty = false → s.smVal = s.src ∧ s.smRc = s.rc)
     (s2 : s.smDirty = true → s.chan = true) : DCore (notifySubs s) := by
   refine ⟨?_, ?_, ?_, ?_, ?_, ?_, ?_⟩ <;> simp_all
   intro a ha
@@ -250,9 +250,9 @@ theorem notifySubs_dcore {s : State} (r1 : s.dstate ≠ .notifying) (r2 : s.dsta
 theorem Inv.manualSet {s : State} (h : Inv s) (v : Val) : Inv (manualSet s v) := by
   obtain ⟨⟨r1, r2, r7, m1, aw, s1, s2⟩, ⟨r3, r4, r5, r6, fresh⟩, ⟨e1, e2, e3, e5, e6, e7, e8⟩, ew⟩ := h
   unfold Async.manualSet
-  have hc := notifySubs_dcore (s := { s with value := some v, manualLive := true, lastManual := some v })
+  have hc := notifySubs_dcore (s := { s with value := some v, manualLive := true, lastManual := some v, msetDuring := true })
     r1 r2 (by simp) (by simp) aw s1 s2
-  have he := notifySubs_effect (s := { s with value := some v, manualLive := true, lastManual := some v })
+  have he := notifySubs_effect (s := { s with value := some v, manualLive := true, lastManual := some v, msetDuring := true })
     e1 (fun a b => (e2 a b).1) e3 e5 e6 e7 e8 ⟨ew.w1, ew.w2, ew.w3⟩
   refine ⟨hc, ⟨?_, ?_, ?_, ?_, ?_⟩, he.1, he.2⟩ <;> simp_all [inputsNow]
 
@@ -264,10 +264,12 @@ theorem applyResult_mid {s : State} (dc : DCore s) (ec : ECore s) (ew : EWake s)
   dsimp only [applyResult]
   rw [if_pos hv]
   have hc := notifySubs_dcore
-    (s := { s with curStatus := .done, pc := .waiting, value := some (fetchFn s.curInputs), manualLive := false })
+    (s := { s with pending := s.pending - s.idsHeld, idsHeld := 0, curStatus := .done, pc := .waiting,
+                  value := some (fetchFn s.curInputs), manualLive := false })
     r1 r2 (by simp) (by simp) aw s1 s2
   have he := notifySubs_effect
-    (s := { s with curStatus := .done, pc := .waiting, value := some (fetchFn s.curInputs), manualLive := false })
+    (s := { s with pending := s.pending - s.idsHeld, idsHeld := 0, curStatus := .done, pc := .waiting,
+                  value := some (fetchFn s.curInputs), manualLive := false })
     e1 (fun a b => (e2 a b).1) e3 e5 e6 e7 e8 ⟨ew.w1, ew.w2, ew.w3⟩
   refine ⟨hc, ⟨?_, ?_, ?_⟩, he.1, he.2⟩ <;> simp_all [inputsNow]
 
@@ -351,35 +353,44 @@ theorem dLoop_eq (n : Nat) (s : State) :
 /-- the two ways `fut.await` is reached: the initial future is reused (the check found no change), or a
 new future is created (which reads the sources now) -/
 theorem fetchState_cases (s : State) :
-    ((chk s).2 = false ∧ s.initialFut = true ∧ s.dstate ≠ .dirty ∧ (s.smDirty = true → s.smVal = s.src) ∧
+    ((chk s).2 = false ∧ s.initialFut = true ∧ s.dstate ≠ .dirty ∧
+      (s.smDirty = true → s.smVal = s.src ∧ s.smRc = s.rc) ∧
       fetchState s =
       { s with
         reg := true, chan := false,
-        smVal := (if s.smDirty then s.src else s.smVal), smDirty := false, initialFut := false,
+        smVal := (if s.smDirty then s.src else s.smVal), smRc := (if s.smDirty then s.rc else s.smRc),
+        smDirty := false, initialFut := false,
         firstRun := false, loading := true, version := s.version + 1, fetchVersion := s.version + 1,
+        idsHeld := s.susp, pending := s.pending + s.susp, susp := 0, coveredCur := s.readSince,
+        readSince := false, msetDuring := false,
         pc := .fetching }) ∨
     (fetchState s =
       { s with
         reg := true, chan := false,
         dstate := (if s.dstate = .dirty then .clean else s.dstate),
-        smVal := (if s.smDirty then s.src else s.smVal), smDirty := false, initialFut := false,
+        smVal := (if s.smDirty then s.src else s.smVal), smRc := (if s.smDirty then s.rc else s.smRc),
+        smDirty := false, initialFut := false,
         curStatus := .pending, nf := s.nf + 1,
         curInputs := (if s.viaMemo then (if s.smDirty then s.src else s.smVal) else s.src),
         firstRun := false, loading := true, version := s.version + 1, fetchVersion := s.version + 1,
+        idsHeld := s.susp, pending := s.pending + s.susp, susp := 0, coveredCur := s.readSince,
+        readSince := false, msetDuring := false,
         pc := .fetching }) := by
   by_cases hd : s.dstate = .dirty <;> by_cases hs : s.smDirty = true <;>
-    by_cases hi : s.initialFut = true <;> by_cases hch : s.smVal = s.src <;>
-    simp [fetchState, chk, dNeedsRerun, smUpdate, dropInitial, startFetch, inputsNow, hd, hs, hi, hch]
+    by_cases hi : s.initialFut = true <;> by_cases hch : s.smVal = s.src <;> by_cases hrc : s.smRc = s.rc <;>
+    simp [fetchState, chk, dNeedsRerun, smUpdate, dropInitial, startFetch, inputsNow, hd, hs, hi, hch, hrc]
 
 theorem chk_false (s : State) (h : (chk s).2 = false) :
-    s.dstate ≠ .dirty ∧ (s.smDirty = true → s.smVal = s.src) ∧
+    s.dstate ≠ .dirty ∧ (s.smDirty = true → s.smVal = s.src ∧ s.smRc = s.rc) ∧
     (chk s).1 =
       { s with
         reg := true, chan := false,
-        smVal := (if s.smDirty then s.src else s.smVal), smDirty := false } := by
+        smVal := (if s.smDirty then s.src else s.smVal), smRc := (if s.smDirty then s.rc else s.smRc),
+        smDirty := false } := by
   revert h
   by_cases hd : s.dstate = .dirty <;> by_cases hs : s.smDirty = true <;> by_cases hch : s.smVal = s.src <;>
-    simp [chk, dNeedsRerun, smUpdate, hd, hs, hch]
+    by_cases hrc : s.smRc = s.rc <;>
+    simp [chk, dNeedsRerun, smUpdate, hd, hs, hch, hrc]
 
 theorem Mid.toFetch {s : State} (h : Mid s) (hn : (chk s).2 = true ∨ (chk s).1.firstRun = true) :
     DCore (fetchState s) ∧ ECore (fetchState s) ∧ EWake (fetchState s) ∧
